@@ -53,7 +53,10 @@ func c11Universe(seed int64, size int) []any {
 	shared := A{1, 2, 3, A{1, 2}}
 	u = append(u, big.NewInt(math.MinInt64), big.NewInt(math.MaxInt64), big.NewInt(-1), big.NewInt(-(1 << 53)), json.Number("9223372036854775807"), json.Number("-9007199254740993"),
 		O{"b": nil}, O{"a": 1, "c": nil}, A{O{"a": nil}}, A{O{"b": nil}}, O{"a": O{"x": nil}}, O{"a": O{"y": nil}},
-		shared, shared[:2], shared[:1], shared[1:3], shared[:3], shared[3].(A)[:1], A{shared[:2], shared[:3]})
+		shared, shared[:2], shared[:1], shared[1:3], shared[:3], shared[3].(A)[:1], A{shared[:2], shared[:3]},
+		// equal key sets whose values differ in opposite directions, the empty key among them (comparison must go by
+		// the least differing key, whatever order a map is walked in)
+		O{"": 1, "a": 2}, O{"": 2, "a": 1}, O{"": 1, "a": 1}, O{"": 2, "a": 2}, O{"a": 1, "b": 2, "c": 3}, O{"a": 1, "b": 3, "c": 2}, O{"a": 2, "b": 1, "c": 1}, O{"": nil, "\x00": 1}, O{"": 1, "\x00": nil})
 	r := rand.New(rand.NewPCG(uint64(seed), 0xc11))
 	for len(u) < size {
 		v := gen.RandValue(r, 3)
@@ -82,7 +85,7 @@ var (
 
 func c11Init(c *run.Ctx) {
 	c11Once.Do(func() {
-		c11U = c11Universe(c.Seed, c.N(245, 460))
+		c11U = c11Universe(c.Seed, c.N(255, 470))
 		n := len(c11U)
 		c11M = make([][]int8, n)
 		for i := range c11M {
